@@ -198,13 +198,18 @@ Definition call_expr (goal : term) (extra : list term) : nat -> fr -> heap -> mi
     | _ => ELeaf XRaise
     end.
 
-(* findall: results = makelist([get_value(template) for r in q]) *)
-Definition collect (template : term) : nat -> fr -> heap -> fr :=
+(* findall: results = makelist([get_value(template) for r in q]).  The variables created while an
+   answer was computed are different objects for different answers, although the machine (like
+   Sem/Machine.v) reuses cell numbers in different branches of the search: the collected instance of
+   answer j gets its cells >= lo (the counter at the call) moved up by off_j, off_1 = 0,
+   off_(j+1) = off_j + (counter at answer j - lo)   [Sem/Machine.collect];  f_aux holds off_j *)
+Definition fcollect (template : term) : nat -> fr -> heap -> fr :=
   fun g e h => {| f_env := f_env e; f_nxt := f_nxt e; f_fl := f_fl e;
-                  f_acc := f_acc e ++ [dfast h template]; f_aux := Nat.max (f_aux e) g |}.
-(* the result list may contain cells created while the goal ran: the counter moves past them *)
-Definition collected : nat -> fr -> heap -> fr :=
-  fun _ e _ => {| f_env := f_env e; f_nxt := Nat.max (f_nxt e) (f_aux e); f_fl := f_fl e;
+                  f_acc := f_acc e ++ [Machine.shift_term (f_nxt e) (f_aux e) (dfast h template)];
+                  f_aux := f_aux e + (g - f_nxt e) |}.
+(* the result list may contain those cells: the counter moves past them *)
+Definition fcollected : nat -> fr -> heap -> fr :=
+  fun _ e _ => {| f_env := f_env e; f_nxt := f_nxt e + f_aux e; f_fl := f_fl e;
                   f_acc := f_acc e; f_aux := f_aux e |}.
 
 Definition builtin_code (name : str) (args : list term) : mcode * env :=
@@ -227,18 +232,18 @@ Definition builtin_code (name : str) (args : list term) : mcode * env :=
   else if str_eqb name (s_ "findall") then
     match args with
     | [t; g; l] =>
-        (CSeq (CFor (call_expr g []) (CAssign (collect t)))
-           (CSeq (CAssign collected)
+        (CSeq (CFor (call_expr g []) (CAssign (fcollect t)))
+           (CSeq (CAssign fcollected)
               (CFor (fun _ e _ => ELeaf (XUnify l (mk_list (f_acc e)))) CYield)), [])
     | _ => (CSkip, []) end
   else (CSkip, []).
 
 (* renaming of a stored fact's own variables 0..m-1 to new cells g..g+m-1 (Answer.match:
    copy_term with a new mapping at every match) *)
-Fixpoint shift_term (g : nat) (t : term) : term :=
+Fixpoint fact_shift (g : nat) (t : term) : term :=
   match t with
   | TVar v => TVar (g + v)
-  | TFun f xs => TFun f (map (shift_term g) xs)
+  | TFun f xs => TFun f (map (fact_shift g) xs)
   | _ => t
   end.
 Definition fact := (nat * list term)%type.          (* number of variables, argument values *)
@@ -250,7 +255,7 @@ Fixpoint facts_code (fs : list fact) (args : list term) : mcode :=
   | [] => CAssign clear_acc
   | (m, vals) :: r =>
       CSeq (CAssign (fun g e _ => {| f_env := f_env e; f_nxt := g + m; f_fl := f_fl e;
-                                     f_acc := map (shift_term g) vals; f_aux := f_aux e |}))
+                                     f_acc := map (fact_shift g) vals; f_aux := f_aux e |}))
         (CSeq (CFor (fun _ e _ => ELeaf (XArrays args (f_acc e))) CYield)
            (facts_code r args))
   end.
